@@ -680,7 +680,56 @@ func c01SupplyPerturbations() []c20Pert {
 			return fmt.Sprintf("declared total supply moved by %d", delta), true
 		}
 	}
+	dupUser := func(g *genesis.GenesisConfig, r *rand.Rand) (string, bool) {
+		// a second entry for an account that already has one: the declared supply is raised by what the new entry gives,
+		// so every sum the validators compute still adds up
+		if g.GenesisBlocks == nil || g.TokenConfig == nil {
+			return "", false
+		}
+		for _, b := range g.GenesisBlocks.Blocks {
+			if types.IsEmbeddedAddress(b.Address) {
+				continue
+			}
+			for zts, amt := range b.BalanceList {
+				if amt.Sign() <= 0 {
+					continue
+				}
+				for _, t := range g.TokenConfig.Tokens {
+					if t.TokenStandard != zts {
+						continue
+					}
+					extra := big.NewInt(1 + r.Int63n(1000))
+					t.TotalSupply = new(big.Int).Add(t.TotalSupply, extra)
+					if t.MaxSupply.Cmp(t.TotalSupply) < 0 {
+						t.MaxSupply = new(big.Int).Set(t.TotalSupply)
+					}
+					g.GenesisBlocks.Blocks = append(g.GenesisBlocks.Blocks, &genesis.GenesisBlockConfig{Address: b.Address, BalanceList: map[types.ZenonTokenStandard]*big.Int{zts: extra}})
+					return "second entry for an account, supply raised accordingly", true
+				}
+			}
+		}
+		return "", false
+	}
+	dupContract := func(g *genesis.GenesisConfig, r *rand.Rand) (string, bool) {
+		if g.GenesisBlocks == nil {
+			return "", false
+		}
+		for _, b := range g.GenesisBlocks.Blocks {
+			if !types.IsEmbeddedAddress(b.Address) {
+				continue
+			}
+			for zts, amt := range b.BalanceList {
+				if amt.Sign() > 0 {
+					g.GenesisBlocks.Blocks = append(g.GenesisBlocks.Blocks, &genesis.GenesisBlockConfig{Address: b.Address, BalanceList: map[types.ZenonTokenStandard]*big.Int{zts: big.NewInt(0)}})
+					return "second entry for a contract giving 0 of a token it holds", true
+				}
+			}
+		}
+		return "", false
+	}
 	return []c20Pert{
+		{"second-entry-for-an-account", dupUser},
+		{"second-entry-for-a-contract-with-zero", dupContract},
 		{"unheld-mintable-token-with-supply", unheld(true, 1000)},
 		{"unheld-mintable-token-with-one-unit", unheld(true, 1)},
 		{"unheld-fixed-token-with-supply", unheld(false, 1000)},
